@@ -1,11 +1,14 @@
 # C08 -- ants: at most `size` handlers run at once and timeouts bound the wait.
-# Model: coq/models/Ants.v ; theorems: coq/props/C08.v ; vehicle: faketime trace validation.
+# Model: coq/models/Ants.v (+ models/AntsPrompt.v: promptness predicates) ; theorems: coq/props/C08.v ;
+# proofs: coq/proofs/AntsProofs.v, coq/proofs/AntsPromptProofs.v ; vehicle: faketime trace validation.
 import json
 
 from . import common
 from . import ants_common as ac
 
 PROP = "C08"
+# the all-prompt timing bound (ants_get2_bound_all_prompt) is proved in its own files
+PROOFS = ac.PROOFS + ["proofs/AntsPromptProofs.v", "models/AntsPrompt.v"]
 KINDS_QUICK = [("all-prompt", "prompt", 2400), ("non-cooperative(K1-class)", "stubborn", 1200), ("burst-busy", "burst", 1200),
                ("retry-outcomes", "retry", 400)]
 
@@ -77,7 +80,7 @@ def setup(chk):
 
 def run(chk):
     setup(chk)
-    chk.run_proof_gate(ac.PROOFS)
+    chk.run_proof_gate(PROOFS)
     binary = ac.build(chk)
     if binary:
         try:
